@@ -6,6 +6,7 @@ import (
 	"fmt"
 	"os"
 	"strings"
+	_ "verif/h/duoc"
 	"verif/h/own"
 
 	"github.com/biogo/biogo/align/pals"
@@ -252,10 +253,10 @@ func overlap(a0, a1, b0, b1 int) int {
 type runner struct{ m *morass.Morass }
 
 func (r *runner) align(k kase, target, query []byte, comp bool) (hits, other dp.Hits, err error) {
-	t := own.NewSeq("t", alphabet.BytesToLetters(target), alphabet.DNA)
+	t := own.NewSeq("t", alphabet.BytesToLetters(append([]byte(nil), target...)), alphabet.DNA)
 	q := t
 	if !k.Self {
-		q = own.NewSeq("q", alphabet.BytesToLetters(query), alphabet.DNA)
+		q = own.NewSeq("q", alphabet.BytesToLetters(append([]byte(nil), query...)), alphabet.DNA)
 	}
 	r.m.Clear()
 	p := pals.New(t, q, k.Self, r.m, 0, nil, nil)
